@@ -421,7 +421,7 @@ def run_task(task) -> dict:
             obs = post_for(cs, value, keys)
             res["obligations"] += len(obs)
             post = z3.And([o for _, o in obs]) if obs else z3.BoolVal(True)
-            r = ctx.check(z3.Not(post))
+            r = ctx.check(z3.Not(post), expect_unsat=True)
             if r == "unknown":
                 raise Inconclusive("obligation")
             if r == "unsat":
@@ -432,7 +432,7 @@ def run_task(task) -> dict:
                 vobs = post_for(vc, value, keys)
                 vpost = z3.And([o for _, o in vobs]) if vobs else z3.BoolVal(True)
                 # only where the two oracles differ is the attribution meaningful
-                if ctx.check(z3.Not(vpost)) == "unsat":
+                if ctx.check(z3.Not(vpost), expect_unsat=True) == "unsat":
                     attributed[fid] = attributed.get(fid, 0) + 1
                     return
             model = nice_model(ctx, z3.Not(post), [prep.vars.fluent(f) for f in prep.all_fluents])
